@@ -262,9 +262,16 @@ def _run_machine(mod, ctx, payload):
         pass
     except hypothesis.errors.Flaky:
         # aborting a run with StopShard leaves Hypothesis' data tree with an
-        # unfinished test case, which it reports as flaky; only tolerated then
-        if not ctx.stop_requested:
+        # unfinished test case, which it reports as flaky; tolerated then, and
+        # when a violation has already been recorded (a verdict that depends
+        # on earlier calls makes the failing case itself flaky)
+        if not ctx.stop_requested and not ctx.violations:
             raise
+        ctx.hist["shrink-ended:flaky"] += 1
+    except Exception as e:  # noqa
+        if not ctx.violations:
+            raise
+        ctx.hist["shrink-ended:%s" % type(e).__name__] += 1
 
 
 # --------------------------------------------------------------------------
@@ -350,9 +357,16 @@ def _run_generated(mod, ctx, payload):
         pass
     except StopShard:
         pass
+    except hypothesis.errors.Unsatisfiable:
+        ctx.hist["unsatisfiable:" + name] += 1
     except hypothesis.errors.Flaky:
-        if not ctx.stop_requested:
+        if not ctx.stop_requested and not ctx.violations:
             raise
+        ctx.hist["shrink-ended:flaky"] += 1
+    except Exception as e:  # noqa -- e.g. an internal error of the shrinker
+        if not ctx.violations:
+            raise
+        ctx.hist["shrink-ended:%s" % type(e).__name__] += 1
     except hypothesis.errors.Unsatisfiable:
         ctx.hist["unsatisfiable:" + name] += 1
 
